@@ -13,6 +13,8 @@ static struct {
     volatile int arrived[MAXR], returned[MAXR], gate[MAXR];
     wl_actor A[MAXA];
     long laps;
+    int free_by_waiter; /* the first caller that returns from the last round frees the barrier at once */
+    volatile int free_claimed;
 } S;
 
 static void wait_flag(wl_actor *a, volatile int *f)
@@ -56,6 +58,14 @@ static void body(wl_actor *a)
         if (r + 1 < S.R && !S.reinit_before[r + 1] && a->id < S.nr[r + 1])
             SIM_CHECK(S.arrived[r + 1] < S.nr[r + 1], "barrier:round-mixup", "round %d is complete before actor %d left round %d", r + 1, a->id, r);
         S.returned[r]++;
+        if (S.free_by_waiter && r == S.R - 1 && !S.free_claimed) {
+            /* everybody has been released (some may still be on their way out of
+             * ABT_barrier_wait, the last arriver possibly still waking the others): the barrier
+             * is not in use any more and may be freed, like a pthread barrier */
+            S.free_claimed = 1;
+            ABT_OK(ABT_barrier_free(&S.b));
+            sim_count("c08.freed_by_released_waiter", 1);
+        }
         sim_progress();
         for (int k = 0; k < (a->args[r] & 3); k++)
             wl_actor_pause(a, 1);
@@ -84,7 +94,8 @@ static void run_c08(void)
         S.nr[r] = r == 0 ? n : S.reinit_before[r] ? plan_range(1, n) : S.nr[r - 1];
     }
     ABT_OK(ABT_barrier_create((uint32_t)n, &S.b));
-    sim_note("C08 barrier n=%d rounds=", n);
+    S.free_by_waiter = plan_n(3) == 0;
+    sim_note("C08 barrier n=%d%s rounds=", n, S.free_by_waiter ? " free-by-waiter" : "");
     for (int r = 0; r < S.R; r++)
         sim_note("%s%d", S.reinit_before[r] ? "|reinit:" : ",", S.nr[r]);
     sim_note(" actors:");
@@ -103,7 +114,7 @@ static void run_c08(void)
     /* a tasklet only gets the documented error */
     wl_actor T;
     memset(&T, 0, sizeof T);
-    if (plan_n(4) == 0) {
+    if (plan_n(4) == 0 && !S.free_by_waiter) {
         T.id = 0;
         T.kind = AK_TASKLET;
         T.pool = (int)plan_n((uint32_t)rt->npools);
@@ -123,7 +134,10 @@ static void run_c08(void)
     for (int r = 0; r < S.R; r++)
         SIM_CHECK(S.returned[r] == S.nr[r], "barrier:missing-return", "round %d: %d of %d waiters returned", r, S.returned[r], S.nr[r]);
     sim_count("c08.lapping_entries", (uint64_t)S.laps);
-    ABT_OK(ABT_barrier_free(&S.b));
+    if (!S.free_by_waiter)
+        ABT_OK(ABT_barrier_free(&S.b));
+    else
+        SIM_CHECK(S.free_claimed && S.b == ABT_BARRIER_NULL, "barrier:free", "the barrier was not freed by the released waiter");
     wl_rt_stop(rt);
 }
 SIM_WORKLOAD("C08", "barrier", run_c08, 10)
